@@ -71,8 +71,9 @@ class _Dead(Exception):
 
 
 class _TargetRaise(Exception):
-    def __init__(self, name):
+    def __init__(self, name, g=None):
         self.name = name
+        self.g = g            # guard at the raise point (filled in by Interp.stmt when missing)
 
 
 # ------------------------------------------------------------------------------------------------
@@ -213,17 +214,27 @@ class _Ctx:
         self.open = []
         self.side = []
         self.raises = []          # (guard, exception name)
+        self.timeout_ms = timeout_ms
         self.s = z3.SolverFor("QF_BV")
-        self.s.set("timeout", timeout_ms)
+        self.s.set("timeout", min(timeout_ms, 3000))
         for a in assumptions:
             self.s.add(a)
         self.nq = 0
         self.t = 0.0
 
     def check(self, cond):
+        """incremental solver first (short timeout); one-shot QF_BV solver as the fallback"""
         t0 = time.time()
         r = self.s.check(cond)
         self.nq += 1
+        if r == z3.unknown:
+            s = z3.SolverFor("QF_BV")
+            s.set("timeout", self.timeout_ms)
+            s.add(*self.assumptions)
+            s.add(*self.pc)
+            s.add(cond)
+            r = s.check()
+            self.nq += 1
         self.t += time.time() - t0
         return r
 
@@ -313,11 +324,45 @@ class Interp:
         return SI(e)
 
     def side(self, cond):
-        cond = z3.simplify(cond)
+        cond = self.fold(cond)
         if z3.is_true(cond):
             return
         g = self.g
         self.ctx.side.append(cond if g is True else z3.Implies(g_expr(g), cond))
+
+    @staticmethod
+    def _ground(e, depth=3):
+        if z3.is_bv_value(e) or z3.is_true(e) or z3.is_false(e):
+            return True
+        if depth == 0 or e.num_args() == 0:
+            return False
+        return all(Interp._ground(c, depth - 1) for c in e.children())
+
+    def fold(self, e):
+        """constant-fold small ground terms only (z3.simplify on big shared terms is quadratic overall)"""
+        if z3.is_true(e) or z3.is_false(e):
+            return e
+        if self._ground(e):
+            return z3.simplify(e)
+        if z3.is_and(e) or z3.is_or(e):
+            kids = [self.fold(c) for c in e.children()]
+            if z3.is_and(e):
+                if any(z3.is_false(k) for k in kids):
+                    return z3.BoolVal(False)
+                kids = [k for k in kids if not z3.is_true(k)]
+                return z3.BoolVal(True) if not kids else (kids[0] if len(kids) == 1 else z3.And(kids))
+            if any(z3.is_true(k) for k in kids):
+                return z3.BoolVal(True)
+            kids = [k for k in kids if not z3.is_false(k)]
+            return z3.BoolVal(False) if not kids else (kids[0] if len(kids) == 1 else z3.Or(kids))
+        if z3.is_not(e):
+            k = self.fold(e.arg(0))
+            if z3.is_true(k):
+                return z3.BoolVal(False)
+            if z3.is_false(k):
+                return z3.BoolVal(True)
+            return e
+        return e
 
     def ite(self, c, a, b):
         if z3.is_true(c):
@@ -404,7 +449,7 @@ class Interp:
         raise NotEncodable(f"operator {op.__name__} on symbolic ints")
 
     def _nonzero(self, y):
-        c = z3.simplify(y == 0)
+        c = self.fold(y == 0)
         if z3.is_false(c):
             return
         # ZeroDivisionError under the guard where y == 0
@@ -531,6 +576,24 @@ class Interp:
         ctx.add(cond if v else z3.Not(cond))
         return v
 
+    def decide_guarded(self, c):
+        """fork on c for the states of the current guard g: three ways {g&c, g&~c, ~g}.  The first two
+        make the guard redundant (pc implies g); on the third this arm is dead and the states are the
+        business of the other arm of the enclosing merged branch."""
+        g = self.g
+        if g is True:
+            return self.decide(c)
+        if g is False:
+            raise _Dead()
+        if self.decide(g_and(g, c)):
+            self.g = True
+            return True
+        if self.decide(g):
+            self.g = True
+            return False
+        self.g = False
+        raise _Dead()
+
     def feasible(self, cond):
         if isinstance(cond, bool):
             return cond
@@ -547,17 +610,12 @@ class Interp:
     def truth(self, v):
         """python truth of a possibly symbolic value, forking if needed (under the current guard)"""
         if isinstance(v, (SI, SB)):
-            c = z3.simplify(self.bo(v))
+            c = self.fold(self.bo(v))
             if z3.is_true(c):
                 return True
             if z3.is_false(c):
                 return False
-            if self.g is True:
-                return self.decide(c)
-            r = self.decide(g_and(self.g, c))
-            if r:
-                self.g = True
-            return r
+            return self.decide_guarded(c)
         if isinstance(v, Rec):
             return True
         return bool(v)
@@ -676,6 +734,12 @@ class Interp:
         if not fr.rets:
             self.g = False
             raise _Dead()
+        # coverage self-check: every state that entered the call either returned or raised
+        if len(fr.rets) > 1 or new_r:
+            if not any(g is True for g, _, _ in fr.rets) and g0 is not False:
+                cov = g_or([g for g, _, _ in fr.rets] + new_r)
+                if cov is not True:
+                    self.ctx.side.append(z3.Implies(g_expr(g0), cov) if g0 is not True else cov)
         if new_r:
             self.g = g_and(g0, g_not(g_or(new_r)))
         elif len(fr.rets) == 1 and fr.rets[0][0] is True:
@@ -713,6 +777,8 @@ class Interp:
             if symbolic:
                 return self.builtin(f, args, kwargs)
             return self.native(f, args, kwargs)
+        if isinstance(f, Rec):
+            return self.method(f, "__call__", args, kwargs)
         if type(f) in self.classes and not inspect.isfunction(f):
             callm = inspect.getattr_static(type(f), "__call__", None)
             if callm is None:
@@ -732,7 +798,7 @@ class Interp:
         except (NotEncodable, Inconclusive, Unwind, _Restart, _Dead, _TargetRaise, _PathAbort, _MergeFail):
             raise
         except Exception as e:      # the real code raised on concrete data
-            raise _TargetRaise(type(e).__name__)
+            raise _TargetRaise(type(e).__name__, self.g)
 
     def builtin(self, f, args, kwargs):
         a0 = args[0] if args else None
@@ -766,7 +832,7 @@ class Interp:
             acc = args[0]
             for x in args[1:]:
                 c = self.bv(x) < self.bv(acc) if f is min else self.bv(x) > self.bv(acc)
-                acc = SI(self.ite(z3.simplify(c), self.bv(x), self.bv(acc)))
+                acc = SI(self.ite(self.fold(c), self.bv(x), self.bv(acc)))
             return acc
         if f is bin and isinstance(a0, SI):
             return SymBin(a0)
@@ -872,11 +938,19 @@ class Interp:
             self.stmt(s, fr)
 
     def stmt(self, s, fr):
+        g_stmt = self.g
         try:
             self._stmt(s, fr)
         except _TargetRaise as e:
-            if self.g is not False and self.raise_under(self.g, e.name):
-                pass
+            # the exception leaves this statement under the guard that was current where it was raised;
+            # a narrower guard (short-circuit operand, conditional expression) would silently drop the
+            # other states of this statement, so that is refused instead of approximated
+            if e.g is not None and e.g is not self.g and not (isinstance(e.g, bool) and e.g == self.g):
+                same = (not isinstance(e.g, bool)) and (not isinstance(self.g, bool)) and e.g.eq(self.g)
+                if not same:
+                    raise NotEncodable(f"{e.name} raised under a partial guard inside an expression")
+            if self.g is not False:
+                self.raise_under(self.g, e.name)
             self.g = False
             raise _Dead()
 
@@ -917,7 +991,7 @@ class Interp:
         if isinstance(s, ast.Assert):
             c = self.ev(s.test, fr)
             if is_sym(c):
-                ce = z3.simplify(self.bo(c))
+                ce = self.fold(self.bo(c))
                 if self.raise_under(g_and(self.g, z3.Not(ce)), "AssertionError"):
                     self.g = g_and(self.g, ce)
             elif not c:
@@ -974,6 +1048,8 @@ class Interp:
         elif isinstance(t, ast.Subscript):
             o = self.ev(t.value, fr)
             i = self.ev(t.slice, fr)
+            if isinstance(o, NullCache):
+                return
             if is_sym(i):
                 raise NotEncodable("store at a symbolic index")
             if hasattr(o, "e2_store"):
@@ -1011,7 +1087,7 @@ class Interp:
         if not is_sym(c):
             self.block(s.body if (True if isinstance(c, Rec) else c) else s.orelse, fr)
             return
-        ce = z3.simplify(self.bo(c))
+        ce = self.fold(self.bo(c))
         if z3.is_true(ce) or z3.is_false(ce):
             self.block(s.body if z3.is_true(ce) else s.orelse, fr)
             return
@@ -1020,8 +1096,7 @@ class Interp:
         if not fork and fr.loops and fr.loops[-1]["mode"] == "fork" and (self._has_jump(s.body) or self._has_jump(s.orelse)):
             fork = True
         if fork:
-            if self.decide(g_and(g, ce)):
-                self.g = True
+            if self.decide_guarded(ce):
                 self.block(s.body, fr)
             else:
                 self.block(s.orelse, fr)
@@ -1072,15 +1147,8 @@ class Interp:
         if ga is True or gb is True:
             self.g = True
         else:
-            self.g = g_or([ga, gb])
             # keep the guard syntactically small when nothing left the arms
-            try:
-                if z3.is_and(ga) and z3.is_and(gb) and False:
-                    pass
-            except Exception:
-                pass
-            if self._same_split(g, ce, ga, gb):
-                self.g = g
+            self.g = g if self._same_split(g, ce, ga, gb) else g_or([ga, gb])
 
     @staticmethod
     def _same_split(g, ce, ga, gb):
@@ -1107,6 +1175,7 @@ class Interp:
         exits = []            # guards under which the loop was left normally
         it = 0
         pushed = False
+        escaped = False       # did some states leave the previous iteration's body (break/return/raise)?
         try:
             while True:
                 if self.g is False:
@@ -1115,13 +1184,13 @@ class Interp:
                     if it >= len(items):
                         exits.append(self.g)
                         break
-                    if it > 0 and self.g is not True and self.g is not g_in and not self.feasible(self.g):
+                    if escaped and self.g is not True and not self.feasible(self.g):
                         self.g = False
                         break
                     self.assign(s.target, items[it], fr)
                     body_guard = self.g
                 else:
-                    if it > 0 and self.g is not True and self.g is not g_in and mode == "merge" and not self.feasible(self.g):
+                    if escaped and self.g is not True and not self.feasible(self.g):
                         self.g = False
                         break
                     c = self.ev(s.test, fr)
@@ -1131,18 +1200,17 @@ class Interp:
                             break
                         body_guard = self.g
                     else:
-                        ce = z3.simplify(self.bo(c))
+                        ce = self.fold(self.bo(c))
                         if z3.is_false(ce):
                             exits.append(self.g)
                             break
                         if z3.is_true(ce):
                             body_guard = self.g
                         elif mode == "fork":
-                            if not self.decide(g_and(self.g, ce)):
+                            if not self.decide_guarded(ce):
                                 exits.append(self.g)
                                 break
-                            self.g = True
-                            body_guard = True
+                            body_guard = self.g
                         else:
                             gc = g_and(self.g, ce)
                             if not self.feasible(gc):
@@ -1186,6 +1254,7 @@ class Interp:
                 except _MergeFail:
                     self._fail_merge([s] + self.merge_stack[-1:])
                 fr.loc = post if g_end is not False or partial else pre
+                escaped = g_end is not body_guard
                 self.g = g_end
         finally:
             fr.loops.pop()
@@ -1207,7 +1276,7 @@ class Interp:
         if g_out is False:
             self.g = False
             raise _Dead()
-        if len(fr.rets) == n_ret and len(self.ctx.raises) == n_raise and g_out is not True and mode != "fork":
+        if len(fr.rets) == n_ret and len(self.ctx.raises) == n_raise and g_out is not True:
             g_out = g_in                       # nothing escaped: same set of states as at loop entry
         self.g = g_out
 
@@ -1223,11 +1292,6 @@ class Interp:
     # -- expressions -----------------------------------------------------------------------------
     def arith(self, op, a, b):
         if isinstance(a, Rec) or type(a) in self.classes or isinstance(b, Rec) or type(b) in self.classes:
-            if not (sym_deep(a) or sym_deep(b)) and not self._mutated_cls(a) and not self._mutated_cls(b):
-                try:
-                    return _BINOPS[op](a, b)
-                except Exception as e:
-                    raise _TargetRaise(type(e).__name__)
             name = _DUNDER[op]
             cls = a.cls if isinstance(a, Rec) else type(a)
             r = NotImplemented
@@ -1249,22 +1313,6 @@ class Interp:
             raise _TargetRaise("ZeroDivisionError")
         except (TypeError, ValueError, OverflowError) as e:
             raise _TargetRaise(type(e).__name__)
-
-    def _mutated_cls(self, o):
-        """real object of a modelled class some of whose functions are mutants/always-interpreted"""
-        if type(o) not in self.classes:
-            return False
-        if not hasattr(self, "_mut_classes"):
-            self._mut_classes = None
-        key = (len(self.mutants), len(self.always_interpret))
-        if self._mut_classes is None or self._mut_classes[0] != key:
-            cl = set()
-            for f in list(self.mutants) + list(self.always_interpret):
-                q = getattr(f, "__qualname__", "")
-                if "." in q:
-                    cl.add(q.split(".")[0])
-            self._mut_classes = (key, cl)
-        return type(o).__name__ in self._mut_classes[1]
 
     def compare(self, op, l, r):
         if (isinstance(l, Rec) or isinstance(r, Rec) or ((type(l) in self.classes or type(r) in self.classes) and (sym_deep(l) or sym_deep(r)))) \
@@ -1368,7 +1416,7 @@ class Interp:
             c = self.ev(e.test, fr)
             if not is_sym(c):
                 return self.ev(e.body if (True if isinstance(c, Rec) else c) else e.orelse, fr)
-            ce = z3.simplify(self.bo(c))
+            ce = self.fold(self.bo(c))
             if z3.is_true(ce):
                 return self.ev(e.body, fr)
             if z3.is_false(ce):
@@ -1394,7 +1442,7 @@ class Interp:
                 if isinstance(o, (list, tuple)) and len(o) > 0:
                     ie = i.e
                     bad = z3.Or(ie < -len(o), ie >= len(o))
-                    if self.raise_under(g_and(self.g, z3.simplify(bad)), "IndexError"):
+                    if self.raise_under(g_and(self.g, self.fold(bad)), "IndexError"):
                         self.g = g_and(self.g, z3.Not(bad))
                     acc = o[-1]
                     try:
@@ -1628,6 +1676,8 @@ def minimize_model(s, variables, tally=None, budget_s=20.0):
     t_end = time.time() + budget_s
     s.push()
     try:
+        if _timed(tally, s) != z3.sat:
+            return None
         for v in variables:
             n = v.size()
             for i in range(n - 1, -1, -1):
@@ -1682,20 +1732,29 @@ def prove(I, thunk, assumptions, variables, native, tally, timeout_s=60, expect=
         return {n: m.eval(variables[n], model_completion=True).as_long() for n in names}
 
     for p in paths:
-        s = _solver(to_ms)
-        s.add(*p.assumptions)
-        s.add(*p.pc)
+        base = list(p.assumptions) + list(p.pc)
+
+        def fresh(*extra):
+            # one solver per query: a solver that has seen check-with-assumptions or push/pop switches to
+            # z3's incremental core, which is much weaker on these formulas than the one-shot QF_BV tactic
+            s_ = _solver(to_ms)
+            s_.add(*base)
+            s_.add(*extra)
+            return s_
+
         # side conditions: BV arithmetic == Python int arithmetic on this path
         if p.side:
-            r = _timed(tally, s, z3.Not(z3.And(p.side)))
+            s = fresh(z3.Not(z3.And(p.side)))
+            r = _timed(tally, s)
             if r == z3.sat:
                 m = s.model()
-                res.update(status="error", note=f"no-overflow side condition violated (width {I.W}) at {vals_of(m)}")
+                res.update(status="error", note=f"no-overflow/coverage side condition violated (width {I.W}) at {vals_of(m)}")
                 return res
             if r != z3.unsat:
                 res.update(status="inconclusive", note="side-condition query undecided")
                 return res
         # (a) reachability / must-fail twin: the same query with the property replaced by False
+        s = fresh()
         r = _timed(tally, s)
         if r != z3.sat:
             res.update(status="error" if r == z3.unsat else "inconclusive", note=f"reachability twin returned {r}")
@@ -1727,15 +1786,16 @@ def prove(I, thunk, assumptions, variables, native, tally, timeout_s=60, expect=
             bad = z3.Or(raised_e, z3.Not(rb))
         if expect == "raises":
             bad = z3.Not(raised_e)
-        s.add(bad)
+        blocks = []
         rounds = 0
         while True:
+            s = fresh(bad, *blocks)
             r = _timed(tally, s)
             if r == z3.unsat:
                 if cross_check is not None and cross_check():
                     try:
                         t0 = time.time()
-                        cr = cvc5_check("(set-logic QF_BV)\n" + s.to_smt2(), timeout_ms=to_ms)
+                        cr = cvc5_check(s.to_smt2(), timeout_ms=to_ms)
                         tally.count("cvc5-" + cr, time.time() - t0)
                         res["crosschecked"] += 1
                         if cr == "sat":
@@ -1753,7 +1813,10 @@ def prove(I, thunk, assumptions, variables, native, tally, timeout_s=60, expect=
             # (c) replay on the real, un-instrumented code
             m = s.model()
             if minimize:
-                mm = minimize_model(s, [variables[n] for n in names], tally)
+                s2 = _solver(min(to_ms, 5000))
+                s2.add(*base)
+                s2.add(bad, *blocks)
+                mm = minimize_model(s2, [variables[n] for n in names], tally)
                 if mm is not None:
                     m = mm
             vals = vals_of(m)
@@ -1772,7 +1835,7 @@ def prove(I, thunk, assumptions, variables, native, tally, timeout_s=60, expect=
                 if blk is not None:
                     res["note"] += " [witness enumeration cut off]"
                 break
-            s.add(blk)
+            blocks.append(blk)
         if res["status"] == "error":
             return res
     return res
